@@ -23,11 +23,16 @@ public:
         const int n = x.size();
         arr_cmplx r(n);
         for (int i = 0; i < n; i++) {
-            const real_t phase = 2 * pi * _freq * _phase / _fs;
+            const real_t phase = (2 * pi * _freq * _phase / _fs) + (2 * pi * _offset);
             const cmplx_t w = {std::cos(phase), std::sin(phase)};
             r[i] = x[i] * w;
             ++_phase;
-            _phase = (_phase < _fs) ? _phase : 0;
+            if (_phase >= _fs) {
+                //one counter period (fs samples) advances the phase by `freq` cycles: keep it for non-integer freq
+                _phase = 0;
+                _offset += _freq;
+                _offset -= std::floor(_offset);
+            }
         }
         return r;
     }
@@ -48,6 +53,7 @@ private:
     int _fs;
     real_t _freq;
     int _phase{0};
+    real_t _offset{0};   ///< phase accumulated over full counter periods (cycles)
 };
 
 }   // namespace dsplib
